@@ -154,6 +154,10 @@ func (g *G) genPnftTx() *world.TxStep {
 	if g.chance("multi", g.bias("multi", 8)) {
 		n = 2
 	}
+	if n > 1 && g.chance("chain", g.bias("chain", 60)) {
+		msgs, note := g.genChain(g.genPnftMsg, n, g.chance("poison", g.bias("poison", 45)))
+		return g.wrapTx(msgs, note, false)
+	}
 	var msgs []sdk.Msg
 	note := ""
 	for i := 0; i < n; i++ {
